@@ -84,6 +84,39 @@ def check_dump(world, dump):
                 access = "default-%s" % (scope.get("default") or "none")
                 findings.append(("reference-model/export/%s" % form,
                                  "module %s: name '%s' (%s) is %s in FORD's export table [USE form: %s, %s]" % (name, n, c, kind, form, access)))
+    # inner scopes (module procedures / interface bodies with their own USE statements): local conformance
+    for mod in world["mods"]:
+        mname = mod["name"].lower()
+        if mname not in dump["tables"]:
+            continue
+        host_actual = strip(dump["tables"][mname])
+        for e in mod["ents"]:
+            if e.get("uses") is None:
+                continue
+            key = "%s::%s" % (mname, e["name"].lower())
+            actual = dump.get("inner", {}).get(key)
+            if actual is None:
+                findings.append(("reference-model/scope-missing", "inner scope %s not found by FORD" % key))
+                local_diffs += 1
+                continue
+            actual = strip(actual)
+            imp = usemodel.imports(e["uses"], ford_exports)
+            pseudo = {"uses": e["uses"], "ents": []}
+            if e["kind"] == "iface":
+                # no host association for interface bodies: only assert what their own USEs import
+                for c in usemodel.CLASSES:
+                    for n, o in imp[c].items():
+                        if actual[c].get(n) != o:
+                            local_diffs += 1
+                            findings.append(("reference-model/inner-iface/%s" % use_form(pseudo, n),
+                                             "interface body %s: name '%s' (%s) imported by its own USE is %s in its name table" % (key, n, c, "missing" if n not in actual[c] else "bound to %s" % actual[c][n])))
+            else:
+                expected = usemodel.merge(host_actual, imp)
+                for kind, c, n in diff_tables(expected, actual):
+                    local_diffs += 1
+                    form = use_form(pseudo, n) if (n in imp[c] or kind != "extra") else "leak"
+                    findings.append(("reference-model/inner-proc/%s" % form,
+                                     "module procedure %s: name '%s' (%s) is %s in its name table [USE form: %s]" % (key, n, c, kind, form)))
     if not local_diffs:
         for s, t in g_tables.items():
             if diff_tables(t, strip(dump["tables"].get(s))):
@@ -103,6 +136,14 @@ def check_dump(world, dump):
                                   tuple(t["types"][e["comp_type"].lower()])))
             for c in scope.get("calls", []):
                 exp_refs.add((name, "call", "", tuple(t["procs"][c.lower()])))
+            if is_mod:
+                inner = usemodel.inner_scopes({"mods": [scope]}, g_exports, g_tables)
+                for e in scope["ents"]:
+                    if e.get("argtype"):
+                        key = "%s::%s" % (name, e["name"].lower())
+                        isc = inner[key]
+                        tt = isc["imports"]["types"] if e["kind"] == "iface" else isc["table"]["types"]
+                        exp_refs.add((key, "argtype", "a", tuple(tt[e["argtype"].lower()])))
         act_refs = {(r[0], r[1], r[2], tuple(r[3][:2])) for r in dump["refs"]}
         for r in sorted(exp_refs - act_refs):
             got = [a for a in act_refs if a[:3] == r[:3]] if r[1] != "call" else []
